@@ -830,7 +830,7 @@ def gen_source(rng, paths, nvars, profile="shape"):
             items.append(["d", v, 1 if rng.random() < 0.25 else 0, rng.choice(["3", "x y", "True", "$w", "y"])])
         if items and rng.random() < 0.3:
             # a reference whose dotted path runs THROUGH a definition (the name of an earlier definition as its first component)
-            items.append(["d", rng.choice(["w", "zq"]), 0, rng.choice(["$(%s.k)", "$%s.k", "x$(%s.k.j)"]) % items[0][1]])
+            items.append(["d", rng.choice(["w", "zv"]), 0, rng.choice(["$(%s.k)", "$%s.k", "x$(%s.k.j)"]) % items[0][1]])
         if rng.random() < 0.6:
             items.extend(gen_var_group(rng, paths))
     for comps, value, dis, disup in gen_assignments(rng, paths, nvars, profile):
